@@ -169,6 +169,12 @@ def run(ctx):
     # premise: the helper caches the rule bodies read (WorldIndex, NodeConsts, NodesWorlds, FilterNodeCache ...) describe THIS branch: listeners interpreted from source, forks copy and never alias
     from checks import helpers_ob as _hob
     _hob.helper_obligations(ctx, 'C04')
+    # premise of "newly introduced": the witness a rule takes from branch.new_constant() / new_world() occurs nowhere on the branch
+    # (C06's append obligations and the real-branch history search, under C04 names)
+    from checks import c06 as _c06
+    _c06.append_obligations(ctx, 'C04.fresh', only=('fresh-constant', 'fresh-world'))
+    ctx.replayers['C04.fresh.'] = _c06.replay_history
+    _c06.bounded_histories(ctx, 'C04.fresh', depth=3)
     ctx.samples = [dict(obligation=r.name, where=r.where, status=r.status, meta={k: v for k, v in r.meta.items() if k in ('node', 'designation', 'schema', 'direction', 'kind')})
                    for r in ctx.results if r.name.endswith('.forward')][:5]
     ctx.replayers['C04.'] = lambda r: replay(dict(obligation=r.name, counterexample=r.cex, meta=r.meta))
